@@ -4,9 +4,15 @@ import (
 	"github.com/free5gc/openapi/models"
 )
 
+// LadnToModels decodes the contents of an LADN indication (TS 24.501 9.11.3.29): a sequence of
+// [length of DNN][DNN value] entries. Malformed contents (an entry running past the end) yield nil.
 func LadnToModels(buf []uint8) (dnnValues []string) {
-	for bufOffset := 1; bufOffset < len(buf); {
+	for bufOffset := 0; bufOffset < len(buf); {
 		lenOfDnn := int(buf[bufOffset])
+		bufOffset++
+		if bufOffset+lenOfDnn > len(buf) {
+			return nil
+		}
 		dnn := string(buf[bufOffset : bufOffset+lenOfDnn])
 		dnnValues = append(dnnValues, dnn)
 		bufOffset += lenOfDnn
